@@ -34,13 +34,9 @@ PATTERN_NAMES = [
     'cnd_t', 'cnd_x', 'mtx_lock', 'thrd_x', 'tss_x',
     'EINVAL', 'E2BIG', 'EX', 'FE_ALL', 'FE_X', 'INT8_MAX', 'UINT64_C', 'INT_X_MIN', 'UINT8_MAX', 'PRIx8', 'PRId', 'SCNd', 'SCNX',
     'LC_ALL', 'LC_X', 'SIGINT', 'SIG_IGN', 'SIGX', 'TIME_UTC', 'TIME_X', 'ATOMIC_VAR_INIT', 'ATOMIC_X',
-    'NULL', 'BUFSIZ', 'EOF', 'size_t', 'errno', 'assert', 'offsetof', 'main', 'std', 'nunavut', 'support', 'serialization',
-    'min', 'max', 'array', 'vector', 'variant', 'string', 'value_type', 'allocator_type', 'VariantType', 'IndexOf', 'MAX_INDEX',
-    '_traits_', 'TypeOf', 'ExtentBytes', 'SerializationBufferSizeBytes', 'HasFixedPortID', 'IsServiceType', 'IsService',
-    'IsRequest', 'IsResponse', 'Request', 'Response', 'serialize', 'deserialize', 'in_buffer', 'out_buffer', 'out_obj', 'obj',
-    'buffer', 'capacity_bytes', 'offset_bits', 'count', 'numpy', 'np', 'pydsdl', 'warnings', 'typing', '_np_', '_ser_', '_des_',
-    'EXTENT_BYTES', 'FULL_NAME', 'FULL_NAME_AND_VERSION', 'tag', '_tag_', 'union_value', 'get_if', 'visit', 'emplace', 'index',
-    'is_', 'set_', 'get_', 'select', 'Tag', 'F16', 'zX0041', 'zX', 'I', 'O', 'l', 'dsdl', 'uavcan', 'reg',
+    'NULL', 'BUFSIZ', 'EOF', 'size_t', 'errno', 'assert', 'offsetof', 'main', 'std',
+    'min', 'max', 'array', 'vector', 'variant', 'string', 'allocator_type',
+    'F16', 'zX0041', 'zX', 'I', 'O', 'l', 'dsdl', 'uavcan', 'reg',
 ]
 
 
@@ -286,6 +282,8 @@ def corpus() -> typing.List[dict]:
         'nested/deeper/than/this/Leaf.1.0.dsdl': 'regr.Wide.1.0 w\nregr.nested.Mid.1.0 m\n@sealed\n',
         'nested/Mid.1.0.dsdl': 'float16 h\nvoid7\nuint1 bit\n@sealed\n',
         'Un.1.0.dsdl': '@union\nregr.Empty.1.0 e\nfloat64 f\nuint8[<=4] v\nbool b\n@sealed\n',
+        'UnExt.1.0.dsdl': '@union\nfloat32 a\nfloat64 b\n@extent 64 * 8\n',
+        'SvcUn.1.0.dsdl': '@union\nfloat32 a\nfloat64 b\n@sealed\n---\nfloat32 c\n@sealed\n',
         'Old.1.0.dsdl': '@deprecated\nuint8 x\n@sealed\n',
         'Older.1.0.dsdl': '@deprecated\nregr.Old.1.0 o\n@sealed\n',
         '300.Svc.1.0.dsdl': 'uint8 a\n@sealed\n---\nregr.Un.1.0 u\n@extent 1024 * 8\n',
